@@ -370,3 +370,5 @@ def run(chk, prog, tier):
     check_lastrun(chk, prog)
     check_restamp(chk, prog)
     check_tsadvance(chk, prog)
+    from . import c16
+    c16.check_fast_subset(chk, prog)
